@@ -27,6 +27,12 @@ class TargetURI:
     """
 
     def __init__(self, raw: str) -> None:
+        # A value of another type (e.g. ``target = 5`` or ``target = []`` in gallia.toml) must be
+        # reported as an invalid value; ``urlparse()`` would fail with an AttributeError or,
+        # for an empty list, silently give an empty URI.
+        if not isinstance(raw, str):
+            raise ValueError(f"a URI must be a string, not {type(raw).__name__}: {raw!r}")
+
         self.raw = raw
         self.url = urlparse(raw)
         self.qs = parse_qs(self.url.query)
